@@ -967,8 +967,38 @@ impl ChannelConversionBuffer {
         mut range: PlaneRange,
         f: ProcessBiPlanarFn,
     ) {
+        #[cfg(dds_verif)]
+        let verif_base = (
+            plane1.as_ptr() as usize,
+            plane2.as_ptr() as usize,
+            out.as_ptr() as usize,
+        );
+        #[cfg(dds_verif)]
+        let verif_native = (
+            self.native_color.bytes_per_pixel() as usize,
+            (self.native_color.channels != self.target) as usize,
+        );
+        #[cfg(dds_verif)]
+        let verif_call = |plane1: &[u8], plane2: &[u8], out: &[u8], range: &PlaneRange| {
+            crate::verif_hooks::block_event(&[
+                3,
+                plane1.as_ptr() as usize - verif_base.0,
+                plane1.len(),
+                plane2.as_ptr() as usize - verif_base.1,
+                plane2.len(),
+                range.offset as usize,
+                range.width as usize,
+                range.y as usize,
+                out.as_ptr() as usize - verif_base.2,
+                verif_native.0,
+                verif_native.1,
+            ]);
+        };
+
         // fast path: no conversion needed
         if self.native_color.channels == self.target {
+            #[cfg(dds_verif)]
+            verif_call(plane1, plane2, out, &range);
             f(plane1, plane2, out, range);
             return;
         }
@@ -998,6 +1028,18 @@ impl ChannelConversionBuffer {
             let plane2_chunk = &plane2[..info.plane2_element_size as usize];
             let buffer_chunk = &mut buffer[..offset_width as usize * buffer_bytes_per_pixel];
             let out_chunk = &mut out[..offset_width as usize * out_bytes_per_pixel];
+
+            #[cfg(dds_verif)]
+            verif_call(
+                plane1_chunk,
+                plane2_chunk,
+                out_chunk,
+                &PlaneRange {
+                    offset: range.offset,
+                    width: offset_width,
+                    y: range.y,
+                },
+            );
 
             // decode into the temporary buffer
             f(
@@ -1039,6 +1081,18 @@ impl ChannelConversionBuffer {
             let buffer_chunk = &mut buffer[..chunk_size * buffer_bytes_per_pixel];
             let out_chunk =
                 &mut out[chunk_start * out_bytes_per_pixel..chunk_end * out_bytes_per_pixel];
+
+            #[cfg(dds_verif)]
+            verif_call(
+                plane1_chunk,
+                plane2_chunk,
+                out_chunk,
+                &PlaneRange {
+                    offset: 0,
+                    width: chunk_size as u32,
+                    y: range.y,
+                },
+            );
 
             // decode into the temporary buffer
             f(
